@@ -61,5 +61,7 @@ def main(ck):
         cases = ck.harness("c03", ["helpers"])
         ck.correspond("helpers", "drv_c03", cases)
         cases = ck.harness("c03", ["rvb"])
-        ck.correspond("rvb-updates", "drv_c03", cases)
+        ck.correspond("rvb-updates", "drv_c03", [c for c in cases if not c["input"].startswith("region ")])
+        # the exact proposal model (QmcModel/RvbRegion.lean) replayed on the recorded draws of every proposed update
+        ck.correspond("region", "drv_c03", [c for c in cases if c["input"].startswith("region ")])
     return ck.finish(RULE)
